@@ -104,6 +104,19 @@ CHECKS = {
         note='One open known finding (raw-memory variables). Histories are the four fixed shapes x generated configurations.',
         technique='wire-log decoder oracle + callback log checker + flag state machine monitor under a deterministic scheduler',
         engine='detsched+simcf', design='DESIGN.md §3 C05'),
+    'C10': dict(
+        level='fault_enumeration',
+        text=('Requests with expected-reply patterns (shared prefixes of length 1..4, timeouts 0.05/0.2/1.0 s) are sent through '
+              'the real Crazyflie.send_packet to a scripted responder behind the sim:// link while the library\'s real Timer '
+              'threads run on the virtual clock. Per request the first m transmissions and first r replies are lost and the '
+              'reply delay is taken from a grid around the timer instants; close_link/reopen happen at every quarter period '
+              'around pending timers; reliable links are run as the negative case. A reference model of the retry rule '
+              '(period T, cancelled by the packet whose longest pending prefix is the pattern) gives the exact set of expected '
+              'retransmission instants; the wire log with virtual timestamps is compared against it, and against '
+              '"nothing after close" and "nothing of session i in session j".'),
+        note='Exact-time comparison is sound because processing takes zero virtual time; equal-instant ties are may-events.',
+        technique='virtual-time trace checker against a reference retry model; timer monitor; fault-script enumeration',
+        engine='detsched+simcf', design='DESIGN.md §3 C10'),
 }
 
 PENDING_REASON = ('check not built yet in this work session (design in DESIGN.md §3); nothing is claimed for it '
